@@ -57,7 +57,17 @@ def distance(s1, s2, inner_dist=innerdistance.default, use_ndim=False):
     :param use_ndim: Use n-dimensional methods
     :return: Euclidean distance
     """
-    idist_fn, result_fn, _inner_val = innerdistance.inner_dist_fns(inner_dist=inner_dist, use_ndim=use_ndim)
+    _idist_fn, result_fn, _inner_val = innerdistance.inner_dist_fns(inner_dist=inner_dist, use_ndim=use_ndim)
+    return result_fn(distance_inner(s1, s2, inner_dist=inner_dist, use_ndim=use_ndim))
+
+
+def distance_inner(s1, s2, inner_dist=innerdistance.default, use_ndim=False):
+    """ Sum of the inner distances along the diagonal: the value of :meth:`distance` before the
+    final transformation (e.g., before the square root for the squared Euclidean inner distance).
+
+    This is the upper bound for DTW in the representation DTW uses internally.
+    """
+    idist_fn, _result_fn, _inner_val = innerdistance.inner_dist_fns(inner_dist=inner_dist, use_ndim=use_ndim)
     n = min(len(s1), len(s2))
     ub = 0
     for v1, v2 in zip(s1, s2):
@@ -72,7 +82,7 @@ def distance(s1, s2, inner_dist=innerdistance.default, use_ndim=False):
         v1 = s1[n-1]
         for v2 in s2[n:]:
             ub += idist_fn(v1, v2)  # (v1 - v2)**2
-    return result_fn(ub)  # math.sqrt(ub)
+    return ub
 
 
 def distance_fast(s1, s2, inner_dist=innerdistance.default):
